@@ -1050,6 +1050,16 @@ def main(tier: str) -> int:
                     report_once(SIG_GENERIC + "/raises", f"[sliced to {s['keep']}, left-recursive] predict raised "
                                f"{lp['raised']['error']} after {lp['raised']['h']}", dict(sl_replay, history=lp["raised"]["h"]))
                 for miss in lp["missing"][:1]:
+                    if miss["missing"] and all(any(r[0] == m[0] and r[2] == m[2] for r in miss["real"])
+                                               for m in miss["missing"]):
+                        # every missing option is offered to ANOTHER recipient: ForecastingNonTerminals is keyed by
+                        # the message symbol (open finding F39), here reached on a sliced spec
+                        run.count("violations:" + SIG_MERGE)
+                        report_once(SIG_MERGE, f"[sliced to {s['keep']}, left-recursive] after the visible history "
+                                   f"{miss['h']} the forecaster offers {miss['real']}; {miss['missing']} can follow "
+                                   f"(same sender and type offered to another recipient only)",
+                                   dict(sl_replay, history=miss["h"]))
+                        continue
                     run.count("violations:" + SIG_SLICE_ALT)
                     report_once(SIG_SLICE_ALT + "/left-recursive-slice",
                                f"[sliced to {s['keep']}, left-recursive] after the visible history {miss['h']} the forecaster "
